@@ -407,6 +407,28 @@ def run_mac(case, rec):
     sibling_case = dict(case)
     sibling_case["msg"] = msg + b"\x01"
     _, sib = make_mac(sibling_case)
+    # the documented use of copy(): MACs of messages sharing a prefix. The prefix object and its clone each receive a different suffix
+    # (crossing a block boundary); both tags must be the standard's value for their own message
+    if case["mut_seed"] % 4 == 0 and len(msg) >= 2:
+        p0 = mk()
+        if hasattr(p0, "copy"):
+            cut = 1 + case["mut_seed"] // 4 % (len(msg) - 1)
+            p0.update(msg[:cut])
+            k_, c0 = libcall(p0.copy, allowed=(TypeError, ValueError, NotImplementedError, AttributeError), bucket="mac/%s/copy" % fam)
+            if k_ == "ok":
+                c0.update(msg[cut:])
+                p0.update(msg[cut:][::-1] + b"\x01")
+                if bytes(c0.digest()) != exp:
+                    raise Violation("mac/%s/wrong-tag-via-copy" % fam, "tag of prefix.copy().update(suffix) differs from the tag of prefix||suffix", **info)
+                if msg[cut:][::-1] == msg[cut:]:
+                    if bytes(p0.digest()) != sib:
+                        raise Violation("mac/%s/wrong-tag-via-copy" % fam, "tag of the original after its clone was updated differs from the standard", **info)
+                else:
+                    oc = dict(case)
+                    oc["msg"] = msg[:cut] + msg[cut:][::-1] + b"\x01"
+                    if bytes(p0.digest()) != make_mac(oc)[1]:
+                        raise Violation("mac/%s/wrong-tag-via-copy" % fam, "tag of the original after its clone was updated differs from the standard", **info)
+                rec.event("mac-via-copy:" + fam)
     cands = [("true", exp)]
     t = bytearray(exp)
     i = rng.randrange(len(exp) * 8)
